@@ -13,6 +13,7 @@ import CalmVerif.Proofs.UnparseBalanced
 import CalmVerif.Proofs.UnparseEnd
 import CalmVerif.Proofs.UnparseTokens
 import CalmVerif.Proofs.UnparseDepth
+import CalmVerif.Proofs.UnparseFuel
 import CalmVerif.Model.UnparseInst
 
 namespace CalmVerif.Props.C20
@@ -322,6 +323,18 @@ example : valAll braceFree notCaseKind exampleTree = true ∧
      | .ok (chunks, _) => (chunks.map symOfChunk) ==
          [.opener, .indent, .nl, .other, .other, .dedent, .nl, .closer, .nl]
      | .error _ => false) = true := by decide
+
+/-! ### the fuel of the walk -/
+
+/-- The model's walk recurses on explicit fuel.  A result other than the artefact `.error .fuel` is
+independent of the amount of fuel: supplying more never changes it (for every configuration, hooks included).
+So every theorem above ("if the walk returns `chunks` then …") speaks about THE result of the walk.
+(Not proved: that `fuelFor` always suffices, i.e. that `.error .fuel` is never returned; the tie never met it.) -/
+theorem fuel_is_only_a_recursion_device {σ : Type} (cfg : Cfg σ) (fuel extra : Nat) (path : Path) (src : Src)
+    (node : Val) (defn : Option (List Rule)) (s : σ)
+    (h : walkNode cfg fuel path src node defn s ≠ .error .fuel) :
+    walkNode cfg (fuel + extra) path src node defn s = walkNode cfg fuel path src node defn s :=
+  walk_fuel_ge cfg fuel extra path src node defn s h
 
 /-! ### fixed finding KF-20a: an EMPTY indent string is used as given -/
 
